@@ -39,6 +39,11 @@ func ParseConfig() (*Config, error) {
 		return nil, fmt.Errorf("failed to load config (%s): %v", envPath, err)
 	}
 
+	if c.RegConfig == nil {
+		// the decoder allocates the embedded registration config only when one of its keys is present
+		return nil, fmt.Errorf("failed to load config (%s): no registration settings found", envPath)
+	}
+
 	c.ParseBlocklists()
 
 	return &c, nil
